@@ -259,6 +259,12 @@ def scenarios(tier):
                     lims += [(0.05, 0), (0, 0.05)]
                 for lm in lims:
                     out.append(({'calls': [call(lens[i], lm[i], tg) for i in range(k)]}, 0))
+    if not quick:
+        # thorough: all 4-call sequences to one destination over the boundary lengths, one time limit / a falling one
+        for tg in ('B', 'FB'):
+            for lens in itertools.product(LENS, repeat=4):
+                for lm in ((0.05, 0.05, 0.05, 0.05), (0.2, 0.05, 0.05, 0.01)):
+                    out.append(({'calls': [call(lens[i], lm[i], tg) for i in range(4)]}, 0))
     # (ii) several destinations / formats in one sequence
     for k in (2, 3) if quick else (2, 3, 4):
         for tgs in itertools.product(TARGETS, repeat=k):
